@@ -3,6 +3,7 @@ package checks
 import (
 	"fmt"
 	"io"
+	"net"
 	"os"
 	"path/filepath"
 	"sort"
@@ -11,6 +12,7 @@ import (
 	"verifharness/vc"
 	"verifharness/world"
 
+	"github.com/hashicorp/memberlist"
 	"github.com/hashicorp/serf/cmd/serf/command/agent"
 	"github.com/hashicorp/serf/serf"
 	"github.com/hashicorp/serf/zzverif/vsched"
@@ -22,16 +24,21 @@ import (
 // metadata limit) the tags file holds the rejected tags, not the tags in effect.
 const c30rejectedSig = "persisted-tags-differ-after-rejected-edit"
 
+// c30appliedSig: the RPC reported an error (broadcast timeout) for an edit that
+// Serf had already applied, and the tags file does not hold the tags in effect.
+const c30appliedSig = "persisted-tags-differ-after-edit-that-failed-but-took-effect"
+
 func init() {
 	vc.Register(&vc.Check{
 		ID:    "C30",
 		Level: "exploration",
-		Rule:  "cases: every history of up to 2 steps (thorough 3; quick adds all length-3 histories over 8 of the edits) over an alphabet of RPC tag edits (set / delete / both, 1-2 keys, keys {a, b, 'é', 'role', '', a key with quote, backslash, newline and control characters}, values {'', 'x', JSON-hostile characters, 300 bytes, 600 bytes, the two lengths at the metadata limit +0/+1}) plus 'restart' (shut the agent down, start a new one from the same tags file), run against a real agent (real IPC handleTags -> Agent.SetTags -> Serf.SetTags, inert memberlist) with a real tags file; after every step a fresh agent.Create on the same tags file is compared with the tags in effect. non-trivial = history containing an edit that changes the tags or is rejected",
+		Rule:  "cases: every history of up to 2 steps (thorough 3; quick adds all length-3 histories over 8 of the edits) over an alphabet of RPC tag edits (set / delete / both, 1-2 keys, keys {a, b, 'é', 'role', '', a key with quote, backslash, newline and control characters}, values {'', 'x', JSON-hostile characters, 300 bytes, 600 bytes, the two lengths at the metadata limit +0/+1}) plus 'restart' (shut the agent down, start a new one from the same tags file), run against a real agent (real IPC handleTags -> Agent.SetTags -> Serf.SetTags, inert memberlist) with a real tags file; after every step a fresh agent.Create on the same tags file is compared with the tags in effect. The histories of up to 2 steps (thorough: plus length 3 over 8 of the edits) are repeated on an agent whose memberlist knows one silent peer, where every applied edit is answered with the broadcast-timeout error. non-trivial = history containing an edit that changes the tags or is rejected",
 		Assumptions: []string{
 			"'tags in effect' = Serf().LocalMember().Tags of the running agent; 'tags loaded at the next start' = SerfConfig().Tags of a fresh agent.Create with the same TagsFile and an empty tag configuration",
 			"an edit whose result encodes (serf's own tag encoder) to at most memberlist.MetaMaxSize = 512 bytes must take effect; for a larger one the only requirement is persisted == effective",
 			"no tags are configured besides the tags file (the agent refuses that combination)",
-			"the real file system (a temporary directory) without I/O errors; single node (no peers to wait for on broadcast)",
+			"the real file system (a temporary directory) without I/O errors",
+			"peer family: the peer is learnt by memberlist through a real Join against an in-memory push/pull responder and never receives gossip (GossipNodes = 0), so memberlist.UpdateNode always times out (1 ms of real time) after Serf has replaced its tags; whether an edit 'took effect' is judged on LocalMember().Tags, not on the RPC's error",
 		},
 		Run: c30run,
 	})
@@ -211,7 +218,7 @@ func c30run(ctx *vc.Ctx) {
 				for i, p := range prefix {
 					h[i] = alpha[p]
 				}
-				c30history(ctx, scn, dir, idx, h, encLen)
+				c30history(ctx, scn, dir, idx, h, encLen, false)
 			}
 		}
 		if len(prefix) == maxLen {
@@ -231,18 +238,61 @@ func c30run(ctx *vc.Ctx) {
 				for _, c := range red {
 					idx++
 					if ctx.Mine(idx) {
-						c30history(ctx, s3, dir, idx, []c30edit{a, b, c}, encLen)
+						c30history(ctx, s3, dir, idx, []c30edit{a, b, c}, encLen, false)
 					}
 				}
 			}
 		}
 		s3.Sample(`[edit{set "b"=<300 bytes>}, edit{set "role"=<300 bytes>} (rejected: 2 x 300 bytes exceed the limit), restart]`)
 	}
+	// the same histories on an agent whose memberlist knows one (silent) peer
+	ps := ctx.Scn("peer/history<=2", "cases")
+	var prec func(prefix []int)
+	prec = func(prefix []int) {
+		if len(prefix) > 0 {
+			idx++
+			if ctx.Mine(idx) {
+				h := make([]c30edit, len(prefix))
+				for i, p := range prefix {
+					h[i] = alpha[p]
+				}
+				c30history(ctx, ps, dir, idx, h, encLen, true)
+			}
+		}
+		if len(prefix) == 2 {
+			return
+		}
+		for i := range alpha {
+			prec(append(append([]int{}, prefix...), i))
+		}
+	}
+	prec(nil)
+	if ctx.Thorough() {
+		red := []c30edit{alpha[0], alpha[1], alpha[5], alpha[9], alpha[10], alpha[11], alpha[12], alpha[15]}
+		p3 := ctx.Scn("peer/history=3/reduced-alphabet", "cases")
+		for _, a := range red {
+			for _, b := range red {
+				for _, c := range red {
+					idx++
+					if ctx.Mine(idx) {
+						c30history(ctx, p3, dir, idx, []c30edit{a, b, c}, encLen, true)
+					}
+				}
+			}
+		}
+	}
+	ps.Sample(`agent with one known peer: [edit{set "a"="x"} -> RPC error "timeout waiting for update broadcast" but tags in effect {"a":"x"}; the tags file must load as {"a":"x"}], [.., restart] -> {"a":"x"}`)
 	scn.Sample(`[edit{set "a"="x"}, edit{set "b"=<600 bytes>} (rejected), restart]: after step 2 the tags in effect are {"a":"x"}; the tags file must load as {"a":"x"}`)
 	scn.Sample(`[edit{set "a"="x"}, edit{set "a"="y" del "a"}] -> {"a":"y"} (set wins)`)
 }
 
-func c30history(ctx *vc.Ctx, scn *vc.Scenario, dir string, idx int, h []c30edit, encLen func(map[string]string) int) {
+// c30history runs one history. With peer set, the agent's memberlist knows one
+// other live member (learnt through a real Join against an in-memory push/pull
+// responder) that never receives anything: every tag update that passes the size
+// check is applied by Serf, but memberlist.UpdateNode then gives up waiting for
+// the broadcast ("timeout waiting for update broadcast", BroadcastTimeout = 1 ms
+// of real time), so the RPC reports an error although the tags took effect.
+func c30history(ctx *vc.Ctx, scn *vc.Scenario, dir string, idx int, h []c30edit, encLen func(map[string]string) int, peer bool) {
 	file := filepath.Join(dir, fmt.Sprintf("tags-%d.json", idx))
 	defer os.Remove(file)
 	type viol struct{ sig, msg string }
@@ -255,6 +305,8 @@ func c30history(ctx *vc.Ctx, scn *vc.Scenario, dir string, idx int, h []c30edit,
 	// finding after a rejected edit). The history goes on so that later edits are
 	// still checked, but a restart from the stale file is only a consequence.
 	stale := false
+	harnessErr := ""
+	timeouts := 0
 	var trace []string
 	x := vsched.Run(vsched.RunOpts{MaxSteps: 4000000}, func() {
 		gen := 0
@@ -263,7 +315,8 @@ func c30history(ctx *vc.Ctx, scn *vc.Scenario, dir string, idx int, h []c30edit,
 			ac := agent.DefaultConfig()
 			ac.NodeName = "a"
 			ac.TagsFile = file
-			sc := world.NewConfig("a", 0, world.NewTransport(), nil)
+			tr := world.NewTransport()
+			sc := world.NewConfig("a", 0, tr, nil)
 			a, err := agent.Create(ac, sc, io.Discard)
 			if err != nil {
 				fail("agent-create-failed", "agent.Create on the tags file failed: %v", err)
@@ -272,6 +325,20 @@ func c30history(ctx *vc.Ctx, scn *vc.Scenario, dir string, idx int, h []c30edit,
 			if err := a.Start(); err != nil {
 				fail("agent-start-failed", "agent start #%d failed: %v", gen, err)
 				return nil
+			}
+			if peer {
+				p := world.AlivePeer("peer", 1, serf.VEncodeTags(a.Serf(), map[string]string{}))
+				tr.Dial = func(memberlist.Address) (net.Conn, error) {
+					return world.NewPushPullConn(func([]byte) []byte { return world.EncodePushPull([]world.Peer{p}, nil, false) }), nil
+				}
+				n, err := a.Serf().Memberlist().Join([]string{"peer/" + world.NodeIP(1).String() + ":7946"})
+				tr.Dial = nil
+				vsched.Quiesce()
+				if err != nil || n != 1 || a.Serf().Memberlist().NumMembers() != 2 {
+					harnessErr = fmt.Sprintf("cannot make the agent's memberlist learn a peer: joined %d, err %v, members %d", n, err, a.Serf().Memberlist().NumMembers())
+					a.Shutdown()
+					return nil
+				}
 			}
 			return a
 		}
@@ -336,6 +403,9 @@ func c30history(ctx *vc.Ctx, scn *vc.Scenario, dir string, idx int, h []c30edit,
 				res = "rejected(" + respErr + ")"
 				stepRejected = true
 				rejected = true
+				if strings.Contains(respErr, "timeout waiting for update broadcast") {
+					timeouts++
+				}
 			}
 			trace = append(trace, fmt.Sprintf("%v %s -> %s", e, res, c30show(eff)))
 			if !c30eq(eff, prev) {
@@ -343,7 +413,7 @@ func c30history(ctx *vc.Ctx, scn *vc.Scenario, dir string, idx int, h []c30edit,
 			}
 			if fits && !c30eq(eff, want) {
 				sig := "edit-result-wrong"
-				if respErr != "" {
+				if respErr != "" && !strings.Contains(respErr, "timeout waiting for update broadcast") {
 					sig = "edit-within-limit-rejected"
 				}
 				fail(sig, "step %d %v on %s (response error %q): tags in effect %s, want previous - deleted + set = %s", si+1, e, c30show(prev), respErr, c30show(eff), c30show(want))
@@ -362,6 +432,10 @@ func c30history(ctx *vc.Ctx, scn *vc.Scenario, dir string, idx int, h []c30edit,
 				sig := "persisted-tags-differ-after-accepted-edit"
 				if stepRejected {
 					sig = c30rejectedSig
+					if !c30eq(eff, prev) {
+						// the RPC reported an error but the edit is in effect
+						sig = c30appliedSig
+					}
 				}
 				fail(sig, "step %d %v (%s): tags in effect %s but the next start would load %s from the tags file", si+1, e, res, c30show(eff), c30show(loaded))
 				if sig != c30rejectedSig {
@@ -380,6 +454,10 @@ func c30history(ctx *vc.Ctx, scn *vc.Scenario, dir string, idx int, h []c30edit,
 		}
 		return "history [" + strings.Join(hs, ", ") + "]; trace: " + strings.Join(trace, " | ")
 	}
+	if harnessErr != "" {
+		ctx.Fail("C30: %s", harnessErr)
+		return
+	}
 	out := "ok"
 	switch {
 	case len(x.Panics) > 0:
@@ -396,6 +474,9 @@ func c30history(ctx *vc.Ctx, scn *vc.Scenario, dir string, idx int, h []c30edit,
 	default:
 		if rejected {
 			out = "ok/with-rejection"
+		}
+		if timeouts > 0 {
+			out = "ok/with-broadcast-timeout"
 		}
 	}
 	scn.Case(out, changed || rejected)
